@@ -42,9 +42,20 @@ func (deb *Deb) CheckDebsig(validKeys openpgp.EntityList, sigType string) (signe
 	if control == nil || data == nil {
 		return nil, fmt.Errorf("unable to find signed data")
 	}
-	binaryFlag.Data.Seek(0, 0)
-	control.Data.Seek(0, 0)
-	data.Data.Seek(0, 0)
+	/* Verification reads the members from their start; afterwards every
+	 * reader is put back where it was, because deb.Data (the payload tar
+	 * stream) reads from the very same data member. */
+	readers := []*io.SectionReader{binaryFlag.Data, control.Data, data.Data, sig.Data}
+	positions := make([]int64, len(readers))
+	for i, reader := range readers {
+		positions[i], _ = reader.Seek(0, io.SeekCurrent)
+		reader.Seek(0, io.SeekStart)
+	}
+	defer func() {
+		for i, reader := range readers {
+			reader.Seek(positions[i], io.SeekStart)
+		}
+	}()
 	signedData := io.MultiReader(binaryFlag.Data, control.Data, data.Data)
 	return openpgp.CheckDetachedSignature(validKeys, signedData, sig.Data)
 }
